@@ -396,3 +396,6 @@ V("C09-u-far-edge-open-backward", "C09", "C09.6", (DS, "                        
 V("C07-u-far-edge-open-forward", "C07", "C07.5", (DS, "                                true_positive = (self.__t[self.counter] <= root) & (root <= prev_time + dTime)", "                                true_positive = (self.__t[self.counter] <= root) & (root < prev_time + dTime)"))
 V("C10-w-mask-dropped-on-method-change", "C10", "C10.6", (DS, "        if staggered_mask is None:\n            if hasattr(self.integrator, \"staggered_mask\"):\n                return self.integrator.staggered_mask\n            return self.staggered_mask\n        return staggered_mask", "        if staggered_mask is None and hasattr(self.integrator, \"staggered_mask\"):\n            return self.integrator.staggered_mask\n        return staggered_mask"))
 V("C10-x-mask-nonzero-rows", "C10", "C10.7", (ITY, "            self.staggered_mask = D.ar_numpy.astype(D.ar_numpy.asarray(staggered_mask, like=self.tableau_intermediate), D.autoray.to_backend_dtype('bool', like=self.tableau_intermediate))", "            staggered_mask = D.ar_numpy.nonzero(D.ar_numpy.asarray(staggered_mask, like=self.tableau_intermediate))[0]\n            self.staggered_mask = D.ar_numpy.zeros(sys_dim, dtype=D.autoray.to_backend_dtype('bool', like=self.tableau_intermediate), like=self.tableau_intermediate)\n            self.staggered_mask[staggered_mask] = 1"))
+
+V("C15-u-dxn-only-on-accept", "C15", "C15.5", (OPT, "                dx = __dx\n                F1 = __f", "                dx = __dx\n                dxn = D.ar_numpy.linalg.norm(dx).reshape(tuple())\n                F1 = __f"), (OPT, "                break\n        dxn = D.ar_numpy.linalg.norm(dx).reshape(tuple())\n", "                break\n"))
+V("C15-v-dxn-extra-def-silent", "C15", "silent", (OPT, "                dx = __dx\n                F1 = __f", "                dx = __dx\n                dxn = D.ar_numpy.linalg.norm(dx).reshape(tuple())\n                F1 = __f"))
